@@ -513,6 +513,22 @@ struct HashMgrSim : Sim {
                 uint64_t n = lead + B * (uint64_t) (1 + (o.c >> 12) % 3) + (uint64_t) (((o.c >> 14) & 1) ? (o.c >> 5) % B : 0);
                 if (anchor < lo + lead || anchor - lead + n > hi)
                         return false;
+                // the segment must not cover one of the mutable words of the section (binding slots, self-test verdict): their values
+                // depend on what the process did before, and a message must be a function of the plan alone
+                static std::vector<uintptr_t> mut;
+                if (mut.empty()) {
+                        for (auto &nm : symbols_matching("", "_dispatched"))
+                                mut.push_back((uintptr_t) libsym(nm.c_str()));
+                        if (void *st = libsym("self_test_status", false))
+                                mut.push_back((uintptr_t) st);
+                        std::sort(mut.begin(), mut.end());
+                }
+                {
+                        uintptr_t a0 = anchor - lead, a1 = a0 + n;
+                        auto itm = std::lower_bound(mut.begin(), mut.end(), a0 >= 8 ? a0 - 7 : 0);
+                        if (itm != mut.end() && *itm < a1)
+                                return false;
+                }
                 *buf = (uint8_t *) (anchor - lead);
                 *len = (uint32_t) n;
                 return true;
